@@ -1,3 +1,129 @@
-import Babylon.Core.Proto
-/-! Line-protocol driver for property C08 (stub). -/
-def main : IO Unit := Babylon.Core.runLines (fun (s : Unit) _ => (s, "bad-op")) ()
+import Babylon.Core.Trace
+import Babylon.Future.Model
+/-! Lock-step replay driver for property C08 (Future / Promise / CountDownLatch).
+stdin: runs `RUN <seed> mode=… latch=<N|-> prog=… [preset=<futex word>]` / VRT trace lines / `END`;
+stdout per run: `ok <n>` | `diverge <why>`.
+Every trace line of the real code must be exactly the next action of that thread in
+`Babylon.Future.stepThread` (same operation, location, memory order, values read and written). -/
+open Babylon.Core Babylon.Future
+
+structure RState where
+  s : State
+  addr : List (Nat × Nat)      -- callback id ↦ address of its node (learnt at the registrant's first CAS)
+  tids : List Nat
+  wrapMode : Bool
+
+def addrFn (m : List (Nat × Nat)) : Nat → Nat := fun id => (m.lookup id).getD 0
+
+def hdrVal (hdr : List String) (key : String) : Option String :=
+  (hdr.filterMap (fun h => if h.startsWith (key ++ "=") then some ((h.drop (key.length + 1)).toString) else none)).head?
+
+/-- run thread `t` silently while it is at a step the trace cannot show -/
+def silent (s : State) (t : Nat) : Nat → State
+  | 0 => s
+  | n + 1 =>
+    match s.pc t with
+    | .s0 _ => if s.latch then (match stepThread (fun _ => 0) s t {} with | some (s', _) => silent s' t n | none => s) else s
+    | _ => s
+
+/-- latch constructed with count 0: the constructor publishes before the trace starts -/
+def runToIdle (s : State) (t : Nat) : Nat → State
+  | 0 => s
+  | n + 1 => match stepThread (fun _ => 0) s t {} with | some (s', _) => runToIdle s' t n | none => s
+
+def initR (hdr : List String) : RState :=
+  let latch := (hdrVal hdr "latch").bind String.toNat?
+  let s0 := State.init latch
+  let s1 := if latch = some 0 then runToIdle s0 0 16 else s0
+  let s2 := match (hdrVal hdr "preset").bind String.toNat? with
+    | some w => { s1 with futex := w }
+    | none => s1
+  { s := s2, addr := [], tids := [], wrapMode := hdrVal hdr "mode" == some "wrap" }
+
+def showPc (p : Pc) : String := reprStr p
+
+def toOf (args : List String) : Option Nat :=
+  (args.filterMap (fun a => if a.startsWith "to=" then (a.drop 3).toNat? else none)).head?
+
+def stepObs (r : RState) (o : Obs) : Except String RState :=
+  let t := o.tid
+  let r := if r.tids.contains t then r else { r with tids := t :: r.tids }
+  let idle := r.s.pc t = .idle
+  let call (s' : State) : Except String RState :=
+    if idle then .ok { r with s := s' } else .error s!"call while the model thread is at {showPc (r.s.pc t)}"
+  match Act.ofObs o with
+  | none => .error "unknown trace line"
+  | some (.spawn _) | some (.join _) | some .exit => .ok r
+  | some (.race _) => .ok r          -- reported by the check itself (HB monitor on the value storage)
+  | some (.ev ("ORACLE" :: _)) | some (.ev ("stats" :: _)) => .ok r
+  | some (.ev ["call", "set", v]) =>
+    match v.toNat? with
+    | none => .error "bad value"
+    | some v =>
+      if r.s.latch then .error "set_value on a latch"
+      else if r.s.setCalled then .error "client contract: second set_value"
+      else call (callSet r.s t v)
+  | some (.ev ["call", "down", d]) =>
+    match d.toNat? with
+    | none => .error "bad value"
+    | some d =>
+      if !r.s.latch then .error "count_down without a latch"
+      else if d < 1 ∨ d > r.s.budget then .error s!"client contract: count_down({d}) with budget {r.s.budget}"
+      else call (callDown r.s t d)
+  | some (.ev ["call", "get"]) => call (callGet r.s t)
+  | some (.ev ["call", "waitfor", tau]) =>
+    match parseInt? tau with
+    | none => .error "bad timeout"
+    | some tau => call (callWaitFor r.s t tau)
+  | some (.ev ["call", "reg", id]) =>
+    match id.toNat? with
+    | none => .error "bad id"
+    | some id => if r.s.regStarted id then .error "callback id registered twice" else call (callReg r.s t id)
+  | some (.ev ["call", "ready"]) => call (callReady r.s t)
+  | some a =>
+    -- bind the address of the registrant's node at its first CAS
+    let r := match r.s.pc t, a with
+      | .r1 id _, .cas _ _ _ _ _ _ desired _ _ => if (r.addr.lookup id).isNone then { r with addr := (id, desired) :: r.addr } else r
+      | _, _ => r
+    -- the clock only moves forward; a clock line carries the value read
+    let sE : Except String State := match a with
+      | .ev ["clock", c] =>
+        match c.toNat? with
+        | some c => if c < r.s.now then .error s!"clock went backwards ({c} < {r.s.now})" else .ok { r.s with now := c }
+        | none => .error "bad clock"
+      | _ => .ok r.s
+    match sE with
+    | .error e => .error e
+    | .ok s =>
+    let hint : Hint := match a with
+      | .cas _ _ _ _ _ e _ ok obs => { spurious := !ok && e == obs }
+      | .fwoke _ _ tmo => { timeout := tmo }
+      | .fwake _ _ _ n => { woken := n }
+      | _ => {}
+    -- relative timeout handed to futex_wait
+    let toChk : Except String Unit := match s.pc t, a with
+      | .f3 _ to _, .fwait .. => if toOf o.args = some to then .ok () else .error s!"futex_wait timeout: model {to}, implementation {toOf o.args}"
+      | _, .fwait .. => if (toOf o.args).isNone then .ok () else .error "futex_wait with a timeout where the model waits without one"
+      | _, _ => .ok ()
+    match toChk with
+    | .error e => .error e
+    | .ok _ =>
+    match stepThread (addrFn r.addr) s t hint with
+    | none => .error s!"implementation performs {reprStr a} but the model thread is at {showPc (s.pc t)} (no action possible)"
+    | some (s', l) =>
+      if l = a then .ok { r with s := silent s' t 2 }
+      else .error s!"model (at {showPc (s.pc t)}) expects {reprStr l}, implementation did {reprStr a}"
+
+def finalR (r : RState) : Except String Unit :=
+  match r.tids.find? (fun t => r.s.pc t ≠ .idle) with
+  | some t => .error s!"trace ended while model thread {t} is at {showPc (r.s.pc t)}"
+  | none =>
+    if r.s.unsync then .error "model: a value / node read was not ordered by happens-before"
+    else if r.s.setDone then
+      match (List.range 64).find? (fun id => r.s.regDone id && r.s.runs id != [r.s.storage]) with
+      | some id => .error s!"model: callback {id} ran {(r.s.runs id).length} times"
+      | none => .ok ()
+    else .ok ()
+
+def main : IO Unit := do
+  replayLoop (← IO.getStdin) initR stepObs finalR
